@@ -222,6 +222,10 @@ func (s *Set) Intersect(t Set) error {
 				max = telem.max
 				maxOpen = telem.maxOpen
 			}
+			if (minOpen || maxOpen) && min.equal(max) {
+				// The spans only touch at a point that one of them excludes.
+				continue
+			}
 			span, err := newSpan(min, minOpen, max, maxOpen)
 			if err != nil {
 				return err
